@@ -60,14 +60,13 @@ func VH_C14_lock_discipline() {
 			opts = append(opts, WithSerialHooks(hooks))
 		}
 		sc := NewSerialClient(&vhPort{s: s}, opts...)
-		free = func() bool {
-			if sc.mu.TryLock() {
-				sc.mu.Unlock()
-				return true
-			}
-			return false
+		// the client's mutex is found by type, not by name (vndLockState); a client without a mutex field gives
+		// "unknown" and the lock-discipline obligations below hold vacuously (cover "lock-probe" is then not reached)
+		free = func() bool { return vndLockState(sc) != 1 }
+		s.lockProbe = func() bool { return vndLockState(sc) == 0 }
+		if vndLockState(sc) != 2 {
+			vndCover("lock-probe")
 		}
-		s.lockProbe = free
 		func() {
 			defer func() { recover() }()
 			sc.Do(ctx, x.req)
@@ -82,7 +81,7 @@ func VH_C14_lock_discipline() {
 		var nc *Client
 		conf := ClientConfig{ReadTimeout: vhReadTimeout, Hooks: hooks,
 			DialContextFunc: func(c context.Context, address string) (net.Conn, error) {
-				dialLocked = !free()
+				dialLocked = vndLockState(nc) != 0
 				return &vhConn{s: s}, nil
 			}}
 		if mode == 0 {
@@ -91,14 +90,11 @@ func VH_C14_lock_discipline() {
 			nc = NewRTUClientWithConfig(conf)
 		}
 		nc.timeNow = vhNow
-		free = func() bool {
-			if nc.mu.TryLock() {
-				nc.mu.Unlock()
-				return true
-			}
-			return false
+		free = func() bool { return vndLockState(nc) != 1 }
+		s.lockProbe = func() bool { return vndLockState(nc) == 0 }
+		if vndLockState(nc) != 2 {
+			vndCover("lock-probe")
 		}
-		s.lockProbe = free
 		nc.Connect(ctx, "scripted")
 		vndAssert(dialLocked, "Connect dials (and stores the connection) under the lock")
 		vndAssert(free(), "the lock is released when Connect returns")
@@ -176,7 +172,7 @@ func (r *vhRacyRequest) ExpectedResponseLength() int {
 // mutex and runs it when the mutex is released; natively the goroutine simply blocks).
 func VH_C14_concurrent_op() {
 	mode := vndParam("mode") // 0 TCP, 1 RTU network client
-	op := vndParam("op")     // 0 Close, 1 Connect, 2 a second Do
+	op := vndParam("op")     // 0 Close, 1 Connect, 2 a second Do, 3 a Do with an ended context followed by a Do
 	a := vhMakeExchange(2, mode, 1, false)
 	b := vhMakeExchange(2, mode, 1, false)
 	stream := append(append([]byte{}, a.reply...), b.reply...)
@@ -188,7 +184,7 @@ func VH_C14_concurrent_op() {
 		return &vhConn{s: s}, nil
 	}
 	var respB packet.Response
-	var errB error
+	var errB, errDead error
 	doneB := false
 	req := &vhRacyRequest{inner: a.req, at: vndParam("at")}
 	req.fire = func() {
@@ -198,6 +194,13 @@ func VH_C14_concurrent_op() {
 				c.net.Close()
 			case 1:
 				c.net.Connect(c.ctx, "again")
+			case 3:
+				// a caller whose context has already ended (it must not disturb the call in progress either, however
+				// it is turned away), followed by an ordinary call from the same goroutine
+				dead := vhNewCtx()
+				dead.expire()
+				_, errDead = c.net.Do(dead, b.req)
+				respB, errB = c.net.Do(c.ctx, b.req)
 			default:
 				respB, errB = c.net.Do(c.ctx, b.req)
 			}
@@ -218,6 +221,9 @@ func VH_C14_concurrent_op() {
 		vndAssert(s.closed == 1, "the concurrent Close closes the connection (after the exchange)")
 	case 1:
 		vndAssert(dials == 1, "the concurrent Connect dials once")
+	case 3:
+		vndAssert(errDead != nil, "a call whose context has ended fails")
+		vndAssert(errB == nil && respB != nil && vhEqualBytes(respB.Bytes(), b.reply), "the concurrent Do is carried out after the first and receives the reply to its own request")
 	default:
 		vndAssert(errB == nil && respB != nil && vhEqualBytes(respB.Bytes(), b.reply), "the concurrent Do is carried out after the first and receives the reply to its own request")
 	}
